@@ -22,6 +22,7 @@ CONSTANTS Outs,        \* outpoint identifiers
           TrimDepth,   \* outputs marked trimmable are trimmed TrimDepth blocks after creation
           MaxSteps,    \* bound on behaviour length
           WithCrash,           \* explore crashes at all
+          HeadInBatch,         \* the block batch also carries the head pointer (go-quai since fix 1accffa2)
           CrashInHeadWindow,   \* also crash between a block's batch commit and its head-pointer write
           SpendTrimCandidate   \* allow blocks that spend an output in the very block that trims it
 
@@ -167,13 +168,14 @@ WBatch ==
                /\ dbUndo' = (b :> [spent |-> bk.spent, created |-> bk.created, trimmed |-> cand]) @@ dbUndo
                /\ dbMu' = (b :> mu1) @@ dbMu
                /\ dbSize' = (b :> sz1) @@ dbSize
+               /\ dbHead' = IF HeadInBatch THEN b ELSE dbHead
                /\ UNCHANGED <<aborted, dbCanon>>
           ELSE /\ aborted' = TRUE      \* batch dropped; canonical hash of that height deleted again
                /\ dbCanon' = IF aborted THEN dbCanon ELSE [dbCanon EXCEPT ![bk.height] = -1]
-               /\ UNCHANGED <<dbUtxo, dbUndo, dbMu, dbSize>>
+               /\ UNCHANGED <<dbUtxo, dbUndo, dbMu, dbSize, dbHead>>
     /\ todo' = Tail(todo)
     /\ Log([op |-> "w_batch", b |-> Op[2], p |-> -1, sp |-> {}, cr |-> {}, tr |-> {}])
-    /\ UNCHANGED <<blocks, dbHead, cur, interrupted, crashedEver>>
+    /\ UNCHANGED <<blocks, cur, interrupted, crashedEver>>
 
 \* rawdb.WriteHeadBlockHash + currentHeader.Store
 WHead ==
